@@ -103,6 +103,29 @@ Next == x' = x
             recs = recs or read_ndjson(tp)
             e = next(x for x in recs if x["ev"] == "new")
             samples.append({k: e[k] for k in ("fe", "channels", "bps", "opts", "tag")})
+    # ---- raw frame streams: one FlacStreamWriter keeps its caches while depth, channels and rate change from call to call; the bound
+    # is the frame's own (same block size at a narrower depth after a wider one, and the other way round)
+    arrs = []
+    k = 0
+    for bsz in (16, 192, 4096):
+        for depths in ((24, 16), (32, 8), (16, 24, 16), (20, 12, 8), (8, 16, 8), (32, 16, 32, 16)):
+            for ch in (1, 2):
+                k += 1
+                arrs.append({"id": 300000 + k, "frames": [{"rate": 44100, "channels": ch, "bps": d, "len": bsz, "seed": 100 * k + i,
+                                                           "signal": ["walk", "noise", "extremes", "noise"][i % 4] if i else "walk"} for i, d in enumerate(depths)],
+                             "garbage": [[] for _ in range(len(depths) + 1)], "pred": [], "chunkings": [[]], "log_frames": False})
+    sp = os.path.join(wd, "trace_stream.ndjson")
+    run_drive("streamsync", {"out": sp, "arrangements": arrs}, wd, tag="stream", timeout=3000)
+    trs = tlc_trace(os.path.join(SPEC, "Trace_StreamSync.tla"), os.path.join(SPEC, "Trace_StreamSync.cfg"), sp, wd, timeout=3000)
+    nseq = 0
+    for ln in tlc_lines(trs["out"], "NOTE"):
+        m = re.match(r'<<"NOTE", "oversize", (\d+), (\d+), (\d+), (\d+)>>', ln)
+        if m:
+            a = next(x for x in arrs if x["id"] == int(m.group(1)))
+            v.violation("%s rule=C19.frame-within-verbatim-bound stream-writer" % pid,
+                        "frame %s of the stream-writer sequence %s takes %s bytes, bound %s: %s" % (m.group(2), m.group(1), m.group(3), m.group(4), json.dumps(a["frames"])[:400]),
+                        {"arrangement": a})
+    nseq = len(arrs)
     rc = v.finish()
     write_evidence(pid, "model_checking", {
         "states": states, "transitions": states, "traces_validated_against_impl": runs, "samples": samples, "exhaustive": False,
